@@ -276,10 +276,11 @@ bool StepScript(InterpreterEnv& env)
         const bool spk_is_p2sh = (env.flags & SCRIPT_VERIFY_P2SH) && env.successor_script.IsPayToScriptHash();
         if (((env.flags & SCRIPT_VERIFY_SIGPUSHONLY) || spk_is_p2sh) && !script.IsPushOnly())
             return set_error(serror, SCRIPT_ERR_SIG_PUSHONLY);
-        env.altstack.clear();
         // every script that is evaluated is subject to the size limit, not only the first one of the session
+        // (checked before anything is changed: a refused step leaves the session as it was)
         if (env.successor_script.size() > MAX_SCRIPT_SIZE)
             return set_error(serror, SCRIPT_ERR_SCRIPT_SIZE);
+        env.altstack.clear();
         script = env.successor_script;
         env.successor_script.clear();
         pc = env.pbegincodehash = script.begin();
